@@ -201,7 +201,7 @@ class HeaderTable:
         log.debug("Resizing header table to %d from %d", newmax, self._maxsize)
         oldmax = self._maxsize
         self._maxsize = newmax
-        self.resized = (newmax != oldmax)
+        self.resized = self.resized or (newmax != oldmax)
         if newmax <= 0:
             self.dynamic_entries.clear()
             self._current_size = 0
